@@ -13,7 +13,7 @@ RULE = ("full grid: declared curves d in {no ~C section, 0..6} x data columns c 
         "{numpy, normal} x {unwrapped; WRAP YES with c = d and every physical line width 1..c}; plus unwrapped variants "
         "with blank/comment lines inside the data and ~A followed by another section; DLM COMMA / TAB / padded commas with and without a column of negative values; random shapes up to 40 rows x 50 "
         "columns. distinct = distinct (d, c, r class, engine, wrap width, noise, placement); non-trivial = r*c >= 2 and "
-        "the read succeeded Added later: digit-named curves, readings next to and equal to NULL, a column of labels (first or second) in every shape, comma-delimited text cells holding quote characters, row counts around the 21-line sniffing window.")
+        "the read succeeded Added later: digit-named curves, readings next to and equal to NULL, a column of labels (first or second) in every shape, comma-delimited text cells holding quote characters, row counts around the 21-line sniffing window. Round 8: cells in exponent notation with negative exponents on every other line.")
 ASSUMPTIONS = [
     "a read that raises is not a 'successful read' and is counted, not judged, here (C09/C02 judge those)",
     "cells equal the NULL value only in the 'nearnull' cases, where a non-index cell equal to NULL is expected as NaN and every other reading, however close to NULL, as itself; default mnemonic_case (upper)",
